@@ -57,6 +57,7 @@ type FuncContract struct {
 	LoopPub   map[int][]string // loop ordinal -> names of loop variables whose objects are published at loop entry
 	Used      bool
 	Implicit  bool
+	AllocLimit     int  // alloc_limit N: every make in the function allocates at most N elements up front (obligation alloc_bounded)
 	NoPanicAssumed bool // the function is verified like a may_panic one (no no-panic claim, callee preconditions not owed) but its callers assume that it does not panic (an assumption, listed in the evidence)
 	PreAsPanic bool // callee preconditions are not obligations: a call whose precondition cannot be assumed may panic or return anything (its ensures are assumed only under the precondition); for functions that guard a block of calls with a catch-all recover
 	FrameOnly bool // verified for its frame only: may panic, callee preconditions are not obligations (callee ensures are assumed only under them)
@@ -106,7 +107,7 @@ type Contracts struct {
 	Prelude []string // raw SMT text blocks from contract files (//@ smt ...)
 }
 
-var clauseHead = regexp.MustCompile(`^(func|extern|requires|ensures|panic_value|panics_may|panics|rejects|spec_args|functional|may_panic|modifies|loop|inline|trusted|pure|tags|ghost|let|global|lemma|axiom|fresh|unroll|noverify|calls|expect|smt|havoc_all|publishes|writes|fresh_obj|frame_only|pre_as_panic|no_panic_assumed|borrows)\b(\[[^\]]*\])?\s*(.*)$`)
+var clauseHead = regexp.MustCompile(`^(func|extern|requires|ensures|panic_value|panics_may|panics|rejects|spec_args|functional|may_panic|modifies|loop|inline|trusted|pure|tags|ghost|let|global|lemma|axiom|fresh|unroll|noverify|calls|expect|smt|havoc_all|publishes|writes|fresh_obj|frame_only|pre_as_panic|no_panic_assumed|borrows|alloc_limit)\b(\[[^\]]*\])?\s*(.*)$`)
 
 func loadContracts(files []string) (*Contracts, error) {
 	cs := &Contracts{Funcs: map[string]*FuncContract{}}
@@ -315,6 +316,8 @@ func (cs *Contracts) loadFile(path string) error {
 				c.Borrows = append(c.Borrows, strings.Fields(r.rest)...)
 			case "pre_as_panic":
 				c.PreAsPanic = true
+			case "alloc_limit":
+				fmt.Sscan(strings.TrimSpace(r.rest), &c.AllocLimit)
 			case "no_panic_assumed":
 				c.NoPanicAssumed = true
 			case "may_panic":
